@@ -243,13 +243,13 @@ func (fs *FS) Remove(name string) error {
 	if file.Mode().IsDir() {
 		dirNames, err := file.ReadDirNames()
 		if err != nil {
-			return err
+			return fs.wrapperErr("remove", name, err)
 		}
 		if len(dirNames) > 0 {
 			return &hackpadfs.PathError{Op: "remove", Path: name, Err: hackpadfs.ErrNotEmpty}
 		}
 	}
-	return fs.setFile(name, nil)
+	return fs.wrapperErr("remove", name, fs.setFile(name, nil))
 }
 
 // Rename implements hackpadfs.RenameFS
@@ -330,7 +330,7 @@ func (fs *FS) Chmod(name string, mode hackpadfs.FileMode) error {
 
 	newMode := (file.Mode() & ^chmodBits) | (mode & chmodBits)
 	file.modeOverride = &newMode
-	return file.save()
+	return fs.wrapperErr("chmod", name, file.save())
 }
 
 // Chtimes implements hackpadfs.ChtimesFS
@@ -340,5 +340,5 @@ func (fs *FS) Chtimes(name string, atime time.Time, mtime time.Time) error {
 		return fs.wrapperErr("chtimes", name, err)
 	}
 	file.modTimeOverride = mtime
-	return file.save()
+	return fs.wrapperErr("chtimes", name, file.save())
 }
